@@ -709,6 +709,27 @@ func (c *FuncCtx) specBuiltin(st *State, name string, x *ast.CallExpr) ([]*Val, 
 		return []*Val{{T: t, S: mkSel(app(uf, v.S), k.S), Sort: "Int"}}, true
 	case "ncalls", "callarg", "callres", "calltime", "nfails":
 		return c.traceBuiltin(st, name, x)
+	case "tick", "ticks":
+		// ghost counters local to the function under verification: tick(c)
+		// (only in an "at call" clause) increments, ticks(c) reads
+		id, ok := x.Args[0].(*ast.Ident)
+		if !ok || len(x.Args) != 1 {
+			limitf("%s(name) expects a counter name", name)
+		}
+		f := "tick$" + id.Name
+		if c.contract == nil || !c.contract.ticks(id.Name) {
+			// a counter of some other function: unknown here
+			return []*Val{{T: tInt, S: c.fresh("ticks_"+id.Name, "Int"), Sort: "Int"}}, true
+		}
+		n := c.traceN(st, f)
+		if name == "ticks" {
+			return []*Val{{T: tInt, S: mkSub(n, c.tickBase(f)), Sort: "Int"}}, true
+		}
+		if !c.inAtCall {
+			limitf("tick(%s) outside an 'at call' clause", id.Name)
+		}
+		st.heap[traceKey(f)+"|n"] = mkAdd(n, "1")
+		return []*Val{{T: tBool, S: tTrue, Sort: "Bool"}}, true
 	case "fst", "snd":
 		vs := c.evalMulti(st, x.Args[0])
 		i := 0
@@ -1038,7 +1059,7 @@ func (c *FuncCtx) callRepo(st *State, key string, recv *recvInfo, x *ast.CallExp
 	variadic := c.lastVariadic
 	var rv *Val
 	if recv != nil {
-		rv = c.adaptRecv(st, recv, sig)
+		rv = c.adaptRecv(st, recv, sig, con != nil && con.Pure)
 	}
 	wb := c.pendingWB
 	c.pendingWB = nil
@@ -1067,12 +1088,20 @@ func (c *FuncCtx) callRepo(st *State, key string, recv *recvInfo, x *ast.CallExp
 // reference. A pointer-receiver method on an addressable struct *value* (a
 // field such as option.tag) is passed the value; write-back is not modelled
 // and such methods must be observationally pure.
-func (c *FuncCtx) adaptRecv(st *State, recv *recvInfo, sig *types.Signature) *Val {
+func (c *FuncCtx) adaptRecv(st *State, recv *recvInfo, sig *types.Signature, pure bool) *Val {
 	rt := sig.Recv().Type()
 	v := recv.val
 	if _, wantPtr := rt.(*types.Pointer); wantPtr {
 		if _, isPtr := under(v.T).(*types.Pointer); isPtr {
 			return v
+		}
+		// an address-taken struct local lives in the heap: pass its reference
+		if id, ok := ast.Unparen(recv.expr).(*ast.Ident); ok && !recv.promoted && !pure {
+			if o, ok := c.eng.info.Uses[id].(*types.Var); ok && c.heapLocals[o] {
+				if cell, ok := st.vars[o]; ok && cell.Sort == "Int" {
+					return &Val{T: types.NewPointer(o.Type()), S: cell.S, Sort: "Int"}
+				}
+			}
 		}
 		// method with pointer receiver called on a value: pass value (see above)
 		return v
